@@ -80,6 +80,29 @@ def run(ch, build):
         b = [dict(r) for r in a[rng.choice([1, 2]):]] + [r for r in extra if r["id"] not in [x["id"] for x in a] and r["id"] != 0]
         inj.append((a, b))
         bodies += [r["body"] for rp in (a, b) for r in rp if r["type"] == 0x01]
+    # same IDs, same order, same record lengths, different CONTENT (a sensor replaced by another of the same size - record
+    # IDs may be reassigned on modification): whatever was read before the change must not survive into the result
+    for k in range(6 if ch.quick() else 60):
+        a = gen_repo(rng, rng.choice([3, 4, 6]), first_zero=rng.random() < 0.3)
+        for r in a[:3]:
+            if r["type"] != 0x01:
+                r2 = gen_repo(rng, 1)[0]
+                while r2["type"] != 0x01:
+                    r2 = gen_repo(rng, 1)[0]
+                data = bytes([r["id"] & 255, r["id"] >> 8, 0x51, 0x01, len(bytes.fromhex(r2["body"]))]) + bytes.fromhex(r2["body"])
+                r.update(type=0x01, body=r2["body"], data=data.hex())
+        b = []
+        for r in a:
+            r = dict(r)
+            if r["type"] == 0x01:
+                body = bytearray(bytes.fromhex(r["body"]))
+                for pos in rng.sample([p for p in range(len(body)) if p != 42], 6):
+                    body[pos] ^= rng.randrange(1, 256)
+                r["body"] = bytes(body).hex()
+                r["data"] = (bytes.fromhex(r["data"])[:5] + bytes(body)).hex()
+            b.append(r)
+        inj.append((a, b))
+        bodies += [r["body"] for rp in (a, b) for r in rp if r["type"] == 0x01]
     bodies = sorted(set(bodies))
     decs = core.oracle(["dec fsr _ %s" % b for b in bodies])
     dec = {}
